@@ -13,9 +13,12 @@ Inductive patch :=
 | PBal (i : Z) (d : Z) (v : Z)
 | PMark (f t : Z) (h : string) (v : Z)
 | PStatus (i : Z) (v : option smap)      (* the limit-status record *)
-| PMarkGone (f t : Z) (h : string).      (* a vote mark disappeared (never, on the modelled code) *)
+| PMarkGone (f t : Z) (h : string).      (* a vote mark disappeared (only by the repaired address rotation) *)
 
-Inductive c17_case := C17 (bals : list coins) (steps : list (op * Z * list patch)).
+(* a step: transaction id (consecutive steps with the same id are the messages of one transaction, observed
+   one by one inside it), operation, outcome code of the transaction, state patch after the message *)
+Definition ostep := (Z * op * Z * list patch)%type.
+Inductive c17_case := C17 (bals : list coins) (steps : list ostep).
 
 (* ---------------------------------------------------------------- equality of observations *)
 Definition settings_eqb (a b : settings) : bool :=
@@ -32,7 +35,7 @@ Definition map_eqb {K V} (ke : K -> K -> bool) (ve : V -> V -> bool) (l m : list
   Nat.eqb (List.length l) (List.length m) && sub_map ke ve l m && sub_map ke ve m l.
 Definition coin_eqb (a b : Z * Z) : bool := (fst a =? fst b) && (snd a =? snd b).
 Definition txr_eqb (a b : txr) : bool :=
-  (t_to a =? t_to b) && list_eqb coin_eqb (t_amt a) (t_amt b) && String.eqb (t_pw a) (t_pw b) && list_eqb coin_eqb (t_rew a) (t_rew b)
+  (t_from a =? t_from b) && (t_to a =? t_to b) && list_eqb coin_eqb (t_amt a) (t_amt b) && String.eqb (t_pw a) (t_pw b) && list_eqb coin_eqb (t_rew a) (t_rew b)
   && (t_votes a =? t_votes b) && Bool.eqb (t_conf a) (t_conf b).
 (* the denominations the harness uses *)
 Definition denoms : list Z := [0; 1; 2].
@@ -63,7 +66,7 @@ Definition apply_patch (s : option state) (p : patch) : option state :=
   | PBal i d v => Some (setA s i (with_bal (getA s i) (map_set d v (a_bal (getA s i)))))
   | PStatus i v => Some (setA s i (with_stat (getA s i) v))
   | PMark f t h v => Some (add_mark s f t h v)
-  | PMarkGone _ _ _ => None
+  | PMarkGone f t h => Some (mkSt (accts s) (filter (fun e => negb (mark_eqb f t h e)) (marks s)))
   end end.
 (* keep the association list short: rebuild it over the n accounts *)
 Definition compact (n : nat) (s : state) : state :=
@@ -78,22 +81,34 @@ Variable minrew : Z.
 (* the harness supplies the digest of the OldKey in place of the OldKey: H is the identity here *)
 Definition Hid (x : string) : string := x.
 
-Fixpoint steps_match (n : nat) (s : state) (steps : list (op * Z * list patch)) : bool :=
+(* the messages of the first transaction of the list, its outcome code, the observed state after it, the rest *)
+Fixpoint take_tx (n : nat) (id : Z) (s : option state) (steps : list ostep) : list op * option state * list ostep :=
   match steps with
-  | [] => true
-  | (o, code, ps) :: r =>
-      match fold_left apply_patch ps (Some s) with
+  | (id', o, code, ps) :: r =>
+      if id' =? id then
+        let s' := match fold_left apply_patch ps s with Some x => Some (compact n x) | None => None end in
+        let '(ops, fin, rest) := take_tx n id s' r in (o :: ops, fin, rest)
+      else ([], s, steps)
+  | [] => ([], s, [])
+  end.
+
+Fixpoint txs_match (fuel : nat) (n : nat) (s : state) (steps : list ostep) : bool :=
+  match fuel, steps with
+  | _, [] => true
+  | O, _ => false
+  | S fuel, (id, _, code, _) :: _ =>
+      let '(ops, fin, rest) := take_tx n id (Some s) steps in
+      match fin with
       | None => false
       | Some obs =>
-          let obs := compact n obs in
-          let m := step v Hid minrew s o in
+          let m := step_tx v Hid minrew s ops in
           (outcome_code m =? code)
           && (match m with Ok s' => state_eqb n s' obs | _ => state_eqb n s obs end)
-          && steps_match n obs r
+          && txs_match fuel n obs rest
       end
   end.
 Definition case_matches (c : c17_case) : bool :=
-  match c with C17 bals steps => steps_match (List.length bals) (init_state bals) steps end.
+  match c with C17 bals steps => txs_match (S (List.length steps)) (List.length bals) (init_state bals) steps end.
 Fixpoint mismatches_from (k : nat) (cs : list c17_case) : list nat :=
   match cs with [] => [] | c :: r => if case_matches c then mismatches_from (S k) r else k :: mismatches_from (S k) r end.
 Definition c17_mismatches (cs : list c17_case) : list nat := mismatches_from 0 cs.
@@ -111,6 +126,7 @@ Definition kind_name (o : op) : string :=
   | OAddLim _ _ _ _ _ => "add_limits" | ORemLim _ _ _ => "remove_limits" | ODropLim _ _ => "drop_limits"
   | OSend _ _ _ _ _ _ => "custody_send" | OApprove _ _ _ => "approve" | ODecline _ _ _ => "decline"
   | OConfirm _ _ _ _ _ => "confirm" | OBank _ _ _ _ => "bank_send" | OMulti _ _ _ => "multisend"
+  | ORotate _ _ _ => "rotate"
   end%string.
 Definition op_kp (o : op) : option kp :=
   match o with
@@ -153,15 +169,22 @@ Definition wl_lim_clauses (a : acct) (to : Z) (amt : coins) (path : string) : li
 Definition path_clauses (a : acct) (to : Z) (amt : coins) (path : string) : list string :=
   (if guarded a && (0 <? n_cust a) then [cl "blocked" path] else []) ++ wl_lim_clauses a to amt path.
 
-(* the log kept along a history: approvals and declines by genuine custodians (from, target, lower-case
-   hash), and transfers whose password was confirmed with the matching password *)
-Record log := mkLog { l_appr : list (Z * Z * string); l_decl : list (Z * Z * string); l_conf : list (Z * string) }.
+(* the log kept along a history (the checker's own record, built from accepted messages): approvals and
+   declines by listed custodians (from, target, lower-case hash), transfers whose password was confirmed
+   with the matching password, and the accounts that came into being by address rotation *)
+Record log := mkLog { l_appr : list (Z * Z * string); l_decl : list (Z * Z * string); l_conf : list (Z * string); l_rot : list Z }.
 Definition in3 (f t : Z) (h : string) (l : list (Z * Z * string)) : bool :=
   existsb (fun e => match e with (f', t', h') => (f =? f') && (t =? t') && String.eqb h h' end) l.
 Definition in2 (t : Z) (h : string) (l : list (Z * string)) : bool :=
   existsb (fun e => (t =? fst e) && String.eqb h (snd e)) l.
 Definition count_appr (t : Z) (h : string) (l : list (Z * Z * string)) : Z :=
   Z.of_nat (List.length (filter (fun e => match e with (_, t', h') => (t =? t') && String.eqb h h' end) l)).
+Definition rotated (lg : log) (t : Z) : bool := existsb (Z.eqb t) (l_rot lg).
+(* the record follows a rotated account: entries of [a] are repeated for [nw] *)
+Definition ren3 (a nw : Z) (l : list (Z * Z * string)) : list (Z * Z * string) :=
+  map (fun e => match e with (f, _, h) => (f, nw, h) end) (filter (fun e => match e with (_, t, _) => t =? a end) l) ++ l.
+Definition ren2 (a nw : Z) (l : list (Z * string)) : list (Z * string) :=
+  map (fun e => (nw, snd e)) (filter (fun e => fst e =? a) l) ++ l.
 
 (* a pooled transfer of [t] is gone from the pool after this step *)
 Definition released (pre post : state) (t : Z) (h : string) : option txr :=
@@ -183,30 +206,55 @@ Definition release_clauses (lg : log) (pre : state) (t : Z) (h : string) (tx : t
        [cl3 "threshold" kind (if votes_now * 100 <? mode * n_cust T then "undercount" else "nongenuine")]
      else []
    else []) ++
-  (if flag s_pwd T && negb (in2 t h (l_conf lg)) then [cl3 "password" kind (if t_conf tx || String.eqb kind "confirm" then "unconfirmed" else "flag_unset")] else []) ++
+  (if flag s_pwd T && negb (in2 t h (l_conf lg)) then [cl3 "password" kind (if t_conf tx then "unconfirmed" else "flag_unset")] else []) ++
   wl_lim_clauses T (t_to tx) (t_amt tx) "custody_send".
 
 (* a vote was recorded in this step (the vote store grew) *)
 Definition voted (pre post : state) : bool := negb (Nat.eqb (List.length (marks pre)) (List.length (marks post))).
 
-(* A. the configuration of a guarded account changes only with the preimage of ITS current key *)
-Definition key_clauses (n : nat) (pre post : state) (o : op) : list string :=
+(* the pending transfer (t, h) before the step *)
+Definition pending (pre : state) (t : Z) (h : string) : option txr :=
+  match a_pool (getA pre t) with Some pl => pool_get h pl | None => None end.
+(* a vote / confirmation paid more out of the requesting account than the voter's reward although no
+   transfer left the pool: a pay-out must take its transfer out of the pool (exactly once) *)
+Definition paid_without_release (pre post : state) (t : Z) (h : string) : bool :=
+  match released pre post t h with
+  | Some _ => false
+  | None =>
+      (* the account the transfer would be paid from, and what the voter's reward may take from it *)
+      let p := match pending pre t h with Some tx => t_from tx | None => t end in
+      let rd := match pending pre t h with Some tx => match t_rew tx with (d, _) :: _ => d | [] => 0 end | None => 0 end in
+      let r0 := match pending pre t h with Some tx => if t_from tx =? t then match t_rew tx with (_, r) :: _ => Z.max 0 r | [] => 0 end else 0 | None => 0 end in
+      existsb (fun d => (if d =? rd then r0 else 0) + bal_get d (a_bal (getA post p)) <? bal_get d (a_bal (getA pre p))) denoms
+  end.
+
+(* a pooled transfer after an address rotation: unchanged, or requested by the rotated address now *)
+Definition tx_from (y : txr) (nw : Z) : txr := mkTx nw (t_to y) (t_amt y) (t_pw y) (t_rew y) (t_votes y) (t_conf y).
+Definition moved_tx (a nw : Z) (x y : txr) : bool :=
+  txr_eqb x y || ((t_from y =? a) && txr_eqb x (tx_from y nw)) || ((t_from x =? a) && txr_eqb y (tx_from x nw)).
+
+(* A. the configuration of a guarded account changes only with the preimage of ITS current key; the
+   decorator judged against the state [a0] at the start of the transaction *)
+Definition key_clauses (n : nat) (a0 pre post : state) (o : op) : list string :=
   let kind := kind_name o in
   let sg := signer o in
   flat_map (fun i =>
       let x := Z.of_nat i in
-      let X := getA pre x in
-      if guarded X && negb (config_eqb X (getA post x)) then
+      let X := getA a0 x in
+      if guarded X && negb (config_eqb (getA pre x) (getA post x)) then
+        match o with
+        | ORotate a _ _ => if x =? a then [] else [cl3 "key" kind "nonsettings"]   (* the rotation clauses below *)
+        | _ =>
         match op_kp o, a_set X with
         | Some k, Some st =>
             if String.eqb (k_old k) (s_key st) then [] else
             [cl3 "key" kind (if x =? sg then "self"
-                             else match a_set (getA pre sg) with
+                             else match a_set (getA a0 sg) with
                                   | None => "t_norec"
                                   | Some ss => if s_en ss then (if k_tgt k =? s_next ss then "t_next" else "t_other") else "t_disabled"
                                   end)]
         | _, _ => [cl3 "key" kind "nonsettings"]
-        end
+        end end
       else []) (seq 0 n).
 
 (* H. coins leave a guarded account (with custodians) only in the steps that are explained below *)
@@ -217,115 +265,141 @@ Definition out_clauses (n : nat) (pre post : state) (o : op) : list string :=
       let X := getA pre x in
       if guarded X && (0 <? n_cust X) && dec X (getA post x) then
         match o with
-        | OApprove _ t _ | ODecline _ t _ | OConfirm _ t _ _ _ => if t =? x then [] else [cl "outflow" kind]
+        | OApprove _ t h | OConfirm _ t h _ _ =>
+            if (t =? x) || match pending pre t (to_lower h) with Some tx => t_from tx =? x | None => false end then [] else [cl "outflow" kind]
+        | ODecline _ t _ => if t =? x then [] else [cl "outflow" kind]
         | OSend s _ _ _ _ _ | OBank s _ _ _ | OMulti s _ _ => if s =? x then [] else [cl "outflow" kind]
+        | ORotate a nw _ => if (a =? x) || (nw =? x) then [] else [cl "outflow" kind]
         | _ => [cl "outflow" kind]
         end
       else []) (seq 0 n).
 
 (* the clauses of the operation itself, and the log after it *)
-Definition op_clauses (n : nat) (lg : log) (pre post : state) (o : op) : list string * log :=
-  let kind := kind_name o in
+Definition op_clauses (n : nat) (lg : log) (a0 pre post : state) (o : op) : list string * log :=
   match o with
   | OApprove f t hraw =>
+      let kind := if rotated lg t then "approve_rotated"%string else "approve"%string in
       let h := to_lower hraw in
       let T := getA pre t in
       let isc := is_custodian T f in
       let dup := in3 f t h (l_appr lg) || in3 f t h (l_decl lg) in
       let vt := voted pre post in
-      let lg1 := if isc && negb dup && vt then mkLog ((f, t, h) :: l_appr lg) (l_decl lg) (l_conf lg) else lg in
+      let lg1 := if isc && negb dup && vt then mkLog ((f, t, h) :: l_appr lg) (l_decl lg) (l_conf lg) (l_rot lg) else lg in
       ((if negb isc && negb (state_eqb n pre post) then [cl "only_custodians" kind] else []) ++
        (if isc && dup && vt then [cl "vote_once" kind] else []) ++
+       (if paid_without_release pre post t h then [cl "payout_without_release" kind] else []) ++
        (match released pre post t h with
         | Some tx => release_clauses lg1 pre t h tx (t_votes tx + 1) kind
         | None => []
         end), lg1)
   | ODecline f t hraw =>
+      let kind := if rotated lg t then "decline_rotated"%string else "decline"%string in
       let h := to_lower hraw in
       let T := getA pre t in
       let isc := is_custodian T f in
       let dup := in3 f t h (l_appr lg) || in3 f t h (l_decl lg) in
       let vt := voted pre post in
-      let lg1 := if isc && negb dup && vt then mkLog (l_appr lg) ((f, t, h) :: l_decl lg) (l_conf lg) else lg in
+      let lg1 := if isc && negb dup && vt then mkLog (l_appr lg) ((f, t, h) :: l_decl lg) (l_conf lg) (l_rot lg) else lg in
       ((if negb isc && negb (state_eqb n pre post) then [cl "only_custodians" kind] else []) ++
        (if isc && dup && vt then [cl "vote_once" kind] else []) ++
+       (if paid_without_release pre post t h then [cl "payout_without_release" kind] else []) ++
        (match released pre post t h with Some _ => [cl "release" kind] | None => [] end), lg1)
   | OConfirm f t hraw p ph =>
+      let kind := if rotated lg t then "confirm_rotated"%string else "confirm"%string in
       let h := to_lower hraw in
-      let T := getA pre t in
-      match (match a_pool T with Some pl => pool_get h pl | None => None end) with
+      match pending pre t h with
       | Some tx =>
           (* an accepted confirmation of a pending transfer: the password must be the one of the request
              (given as it is, or as its digest) *)
           let good := String.eqb p (t_pw tx) || String.eqb ph (t_pw tx) in
-          let lg1 := if good then mkLog (l_appr lg) (l_decl lg) ((t, h) :: l_conf lg) else lg in
+          let lg1 := if good then mkLog (l_appr lg) (l_decl lg) ((t, h) :: l_conf lg) (l_rot lg) else lg in
           ((if good then [] else [cl3 "password" kind "wrong"]) ++
+           (if paid_without_release pre post t h then [cl "payout_without_release" kind] else []) ++
            (match released pre post t h with
             | Some tx => release_clauses lg1 pre t h tx (t_votes tx) kind
             | None => [] end), lg1)
       | None => (if state_eqb n pre post then [] else [cl3 "password" kind "no_transfer"], lg)
       end
   | OSend s to amt _ _ _ =>
+      let kind := "custody_send"%string in
       let S := getA pre s in
       if dec S (getA post s) then      (* paid out directly *)
         ((if guarded S && (0 <? n_cust S) then [cl3 "threshold" kind "direct"] else []) ++
          (if flag s_pwd S then [cl3 "password" kind "direct"] else []) ++
          wl_lim_clauses S to amt kind, lg)
       else ([], lg)
-  | OBank s to amt _ | OMulti s to amt =>
-      let S := getA pre s in
-      if dec S (getA post s) then (path_clauses S to amt kind, lg) else ([], lg)
+  | OBank s to amt _ =>
+      (* the decorator's decision: against the state at the start of the transaction *)
+      if dec (getA pre s) (getA post s) then (path_clauses (getA a0 s) to amt "bank_send", lg) else ([], lg)
+  | OMulti s to amt =>
+      if dec (getA pre s) (getA post s) then (path_clauses (getA a0 s) to amt "multisend", lg) else ([], lg)
+  | ORotate a nw ok =>
+      (* the custody records and the funds of [a] must arrive at [nw] unchanged: the protection follows the funds *)
+      let A := getA pre a in let B := getA pre nw in let A' := getA post a in let B' := getA post nw in
+      let mv {X} (x y : option X) : option X := match x with Some _ => x | None => y end in
+      ((if ok then [] else [cl "rotate" "unauthorised"]) ++
+       (if opt_eqb settings_eqb (a_set B') (mv (a_set A) (a_set B)) && opt_eqb (map_eqb Z.eqb Bool.eqb) (a_cust B') (mv (a_cust A) (a_cust B))
+           && opt_eqb (map_eqb Z.eqb Bool.eqb) (a_wl B') (mv (a_wl A) (a_wl B)) && opt_eqb (map_eqb Z.eqb lim_eqb) (a_lim B') (mv (a_lim A) (a_lim B))
+           && opt_eqb (map_eqb String.eqb (moved_tx a nw)) (a_pool B') (mv (a_pool A) (a_pool B))
+           && opt_eqb (map_eqb Z.eqb stat_eqb) (a_stat B') (mv (a_stat A) (a_stat B))
+        then [] else [cl "rotate" "custody_not_moved"]) ++
+       (if forallb (fun d => (bal_get d (a_bal B') =? bal_get d (a_bal B) + bal_get d (a_bal A)) && (bal_get d (a_bal A') =? 0)) denoms
+        then [] else [cl "rotate" "funds"]),
+       mkLog (ren3 a nw (l_appr lg)) (ren3 a nw (l_decl lg)) (ren2 a nw (l_conf lg)) (a :: nw :: l_rot lg))
   | _ => ([], lg)
   end.
 
-Definition step_clauses (n : nat) (lg : log) (pre post : state) (o : op) : list string * log :=
-  (key_clauses n pre post o ++ out_clauses n pre post o ++ fst (op_clauses n lg pre post o), snd (op_clauses n lg pre post o)).
+Definition step_clauses (n : nat) (lg : log) (a0 pre post : state) (o : op) : list string * log :=
+  (key_clauses n a0 pre post o ++ out_clauses n pre post o ++ fst (op_clauses n lg a0 pre post o), snd (op_clauses n lg a0 pre post o)).
 
 Fixpoint dedup (l : list string) : list string :=
   match l with [] => [] | x :: r => if str_in x r then dedup r else x :: dedup r end.
 
-(* a trace: per transaction the operation, the outcome code and the state after it ([None]: the
-   observation reported something the model's state type has no place for) *)
-Definition trace := list (op * Z * option state).
+(* a trace: per message the transaction id, the operation, the outcome code of its transaction and the
+   state after it ([None]: the observation reported something the model's state type has no place for) *)
+Definition trace := list (Z * op * Z * option state).
 
-Fixpoint trace_clauses (n : nat) (lg : log) (s : state) (tr : trace) : list string :=
+(* [a0], [id0]: the state at the start of the current transaction and its id *)
+Fixpoint trace_clauses (n : nat) (lg : log) (id0 : Z) (a0 s : state) (tr : trace) : list string :=
   match tr with
   | [] => []
-  | (o, code, None) :: _ => ["unmodelled_state"%string]
-  | (o, code, Some post) :: r =>
+  | (id, o, code, None) :: _ => ["unmodelled_state"%string]
+  | (id, o, code, Some post) :: r =>
+      let a0 := if id =? id0 then a0 else s in
       if code =? 0 then
-        fst (step_clauses n lg s post o) ++ trace_clauses n (snd (step_clauses n lg s post o)) post r
-      else (if state_eqb n s post then [] else [cl "not_atomic" (kind_name o)]) ++ trace_clauses n lg post r
+        fst (step_clauses n lg a0 s post o) ++ trace_clauses n (snd (step_clauses n lg a0 s post o)) id a0 post r
+      else (if state_eqb n s post then [] else [cl "not_atomic" (kind_name o)]) ++ trace_clauses n lg id a0 post r
   end.
 
 (* the observed trace of a history: patches applied to the previous observed state *)
-Fixpoint decode (n : nat) (s : state) (steps : list (op * Z * list patch)) : trace :=
+Fixpoint decode (n : nat) (s : state) (steps : list ostep) : trace :=
   match steps with
   | [] => []
-  | (o, code, ps) :: r =>
+  | (id, o, code, ps) :: r =>
       match fold_left apply_patch ps (Some s) with
-      | None => [(o, code, None)]
-      | Some post => let post := compact n post in (o, code, Some post) :: decode n post r
+      | None => [(id, o, code, None)]
+      | Some post => let post := compact n post in (id, o, code, Some post) :: decode n post r
       end
   end.
 
-Definition no_log : log := mkLog [] [] [].
+Definition no_log : log := mkLog [] [] [] [].
 Definition case_clauses (c : c17_case) : list string :=
   match c with C17 bals steps =>
-    let n := List.length bals in dedup (trace_clauses n no_log (init_state bals) (decode n (init_state bals) steps)) end.
+    let n := List.length bals in dedup (trace_clauses n no_log (-1) (init_state bals) (init_state bals) (decode n (init_state bals) steps)) end.
 
-(* the trace the MODEL produces for a list of operations: the same checker runs over it in the proofs *)
+(* the trace the MODEL produces for a list of operations (one message per transaction): the same checker
+   runs over it in the proofs *)
 Section ModelTrace.
 Variable v : variant.
 Variable H : string -> string.
 Variable minrew : Z.
-Fixpoint model_trace (s : state) (ops : list op) : trace :=
+Fixpoint model_trace (id : Z) (s : state) (ops : list op) : trace :=
   match ops with
   | [] => []
-  | o :: r => let s' := exec v H minrew s o in (o, outcome_code (step v H minrew s o), Some s') :: model_trace s' r
+  | o :: r => let s' := exec v H minrew s o in (id, o, outcome_code (step v H minrew s o), Some s') :: model_trace (id + 1) s' r
   end.
 Definition model_clauses (bals : list coins) (ops : list op) : list string :=
-  trace_clauses (List.length bals) no_log (init_state bals) (model_trace (init_state bals) ops).
+  trace_clauses (List.length bals) no_log (-1) (init_state bals) (init_state bals) (model_trace 0 (init_state bals) ops).
 End ModelTrace.
 
 Fixpoint violations_from (k : nat) (cs : list c17_case) : list (nat * list string) :=
